@@ -19,9 +19,17 @@ def odd_variants(rng, c, k):
         m = copy.deepcopy(c)
         m.name = '%s_odd%d' % (c.name, i)
         proper = [n for n in m.nodes if n.kind in ('state', 'parallel', 'final')]
-        kind = rng.choice(['multi', 'multi3', 'multi3', 'foreign_initial', 'hist_outside', 'hist_nodefault', 'deep_initial'])
+        kind = 'related_pair' if i == 0 else rng.choice(['multi', 'multi3', 'multi3', 'foreign_initial', 'hist_outside', 'hist_nodefault', 'deep_initial'])
         try:
-            if kind == 'multi':
+            if kind == 'related_pair':
+                # VALID per the recommendation: an ancestor listed next to one of its own descendants (either order);
+                # the validator must not call this an illegal configuration
+                ts = [t for t in m.trans if t.src.kind not in ('history', 'initial') and len(t.targets) == 1 and t.targets[0].kind in ('state', 'final', 'parallel')
+                      and [a for a in t.targets[0].ancestors() if a.kind == 'state']]
+                t = rng.choice(ts); x = t.targets[0]; a = rng.choice([a for a in x.ancestors() if a.kind == 'state'])
+                t.targets = [a, x] if rng.random() < 0.6 else [x, a]
+                m.expect_valid = True
+            elif kind == 'multi':
                 ts = [t for t in m.trans if t.src.kind not in ('history', 'initial') and t.targets]
                 t = rng.choice(ts); t.targets = t.targets + [rng.choice(proper)]
             elif kind == 'multi3':
@@ -86,6 +94,12 @@ def run(tier, seed):
         return (c, 'validated', None, (gc, fh), r)
     for c, st, info, prep, r in pmap(job, docs):
         odd = getattr(c, 'odd_kind', None)
+        if st == 'rejected' and (odd is None or getattr(c, 'expect_valid', False)):
+            # converse clause: a document that satisfies the structural constraints is reported without fatal issue
+            # (native verdict of the real validator on a generated valid document; not solver-decided)
+            path = chk.write_replay(c.name, {'kind': 'validator-verdict', 'doc': c.name, 'scxml': c.to_xml(), 'fatal': info})
+            chk.violation('%s [%s]%s is structurally valid but Interpreter::validate() reports a fatal issue: %s' % (c.name, c.describe()[:140], ' (odd: %s)' % odd if odd else '', str(info)[:200]), path)
+            stats['rejected'] += 1; continue
         if st == 'rejected':
             stats['rejected'] += 1; chk.extra.setdefault('rejected_by_validator', []).append({'doc': c.name, 'odd': odd}); continue
         if st == 'dump-failed':
@@ -121,12 +135,22 @@ def run(tier, seed):
     chk.functions += ['Interpreter::validate() / InterpreterIssue.cpp (native, real)', 'FastMicroStep::init (native, real, crash guard)', 'uscxml_step of the emitted C (CBMC, C02 query)']
     chk.assumptions += ['the validator and init() run natively and concretely per document (DOM code); the solver decides "legal configuration stays legal" on the machine generated for every accepted document',
                         'a counterexample is an inductive-step counterexample from an arbitrary legal configuration; it is replayed natively on the emitted C']
-    chk.outside += ['absence of false fatals and of spurious syntax warnings (needs the datamodels)', 'termination of validation on arbitrary XML', 'InterpreterIssue.cpp under the solver']
+    chk.outside += ['absence of false fatals beyond the generated valid documents (valid random/feature documents and the related_pair variants: native verdict, not solver-decided) and of spurious syntax warnings (needs the datamodels)', 'termination of validation on arbitrary XML', 'InterpreterIssue.cpp under the solver']
     chk.samples += [{'doc': c.name, 'odd': getattr(c, 'odd_kind', None), 'shape': c.describe()[:160]} for c in docs[:12]]
     return chk.finish()
 
 
 def do_replay(path):
+    d = json.load(open(path))
+    if d.get('kind') == 'validator-verdict':
+        # re-run the real validator on the stored document
+        W = workdir('C19_replay'); native_build(['bin/uscxml-transform', 'lib/libuscxml.so'])
+        sx = os.path.join(W, d['doc'] + '.scxml'); open(sx, 'w').write(d['scxml'])
+        S, T, meta = engines.dump('fast', sx)
+        rc = 1 if meta.get('fatal') else 0
+        log('%s: Interpreter::validate() fatal=%s' % (d['doc'], meta.get('fatal')))
+        if rc: log('VIOLATION property=C19 replay=%s' % path)
+        return rc
     rc = stepcheck.replay_file(path, workdir('C19_replay'))
     if rc: log('VIOLATION property=C19 replay=%s' % path)
     return rc
